@@ -27,6 +27,14 @@ CHECKS = {
              'counts are parsed with find_groups on and off; every leaf is a unique token, so any loss, duplication or '
              'reordering of segments or leaves is attributed directly by comparing tokenised input and output.',
         note='trusts er7ref tokenizer; an HL7apyException counts as surfaced'),
+    'C05': dict(
+        technique='runtime monitoring: differential lock-step execution under STRICT and TOLERANT with validator cross-check',
+        category='exploration', design='DESIGN.md §4 C05',
+        text='Segments with valid/invalid/over-long literals of every base datatype, messages generated from the structure '
+             'tables (with foreign and Z segments) and bounded API histories run under both levels; whenever STRICT accepts, '
+             'TOLERANT must accept with the same encoding and validation report and the STRICT element must draw no validator '
+             'error but missing required children; direct probes check the STRICT refusals the statement lists.',
+        note='reports compared as error/warning string lists'),
     'C06': dict(
         technique='runtime monitoring: icontract post-condition on the real TextualDataType.to_er7 + reference escaper over exhaustive string grids',
         category='exploration', design='DESIGN.md §4 C06',
